@@ -552,10 +552,13 @@ def gen_layout(seed, tier, focus):
     nservers = ch.randint("config", "nservers", 1, n + 3)
     # placement: every share somewhere, some twice, some servers several shares
     placement = []
-    style = ch.pick("config", "pstyle", ["spread", "spread", "clump", "dups", "sparse"])
+    style = ch.pick("config", "pstyle", ["spread", "spread", "clump", "dups", "sparse"] + (["tight"] if focus in ("C03", "C46") else []))
+    tight_keep = set(ch.sample("config", "tight-keep", range(n), k)) if style == "tight" else None
     for sh in range(n):
         if style == "sparse" and ch.chance("config", ("skip", sh), 0.35):
             continue
+        if tight_keep is not None and sh not in tight_keep:
+            continue        # exactly k distinct shares exist: every one of them is needed, however late it answers
         if style == "clump":
             srv = ch.randrange("config", ("psrv", sh), max(1, nservers // 2))
         else:
@@ -594,8 +597,14 @@ def gen_layout(seed, tier, focus):
             kind = ch.pick(F, ("mkind", j), ["delete", "flip", "block", "bhash", "truncate", "field", "ueb_field", "schain_hash", "cthash"])
             muts.append([srv, sh, kind, ch.randrange(F, ("mp1", j), 1 << 30), ch.randrange(F, ("mp2", j), 1 << 30)])
         nf = ch.weighted(F, "nfaults", [(0, 2), (1, 4), (2, 3), (3, 2), (4, 1)])
+        if style == "tight":
+            # with no share to spare only delays are survivable: slow servers, answers after the overdue timer
+            nm = 0
+            muts = []
         for j in range(nf):
             kind = ch.pick(F, ("fkind", j), ["error", "disconnect_before", "disconnect_after", "stall", "stall", "error"])
+            if style == "tight":
+                kind = "stall"
             meth = ch.pick(F, ("fmeth", j), ["get_buckets", "read", "read", "read"])
             faults.append([kind, ch.randrange(F, ("fsrv", j), nservers), meth, ch.randint(F, ("fnth", j), 1, 6),
                            ch.pick(F, ("fsecs", j), [0.5, 5.0, 11.0, 30.0, 300.0])])
